@@ -1,7 +1,10 @@
 package main
 
 import (
+	"encoding/json"
 	"fmt"
+	"os"
+	"path/filepath"
 	"sort"
 )
 
@@ -48,24 +51,135 @@ func inst(pkg, name string, params ...string) *HarnessCfg {
 }
 
 func init() {
+	boxInstances := func(L *Loaded, harness string, nmax int, wall float64, variants [][]string, panicViol bool) []*HarnessCfg {
+		var r []*HarnessCfg
+		p := mod + "/mp4"
+		types := append(registeredBoxTypes(L, "decodersSR"), "zzzz")
+		calib := loadCalib()
+		for _, t := range types {
+			var lens []int
+			if nmax < 0 {
+				// quick tier: a selection guided by the calibration file
+				lens = selectLengths(calib[t], -nmax)
+			} else {
+				for n := 0; n <= nmax; n++ {
+					lens = append(lens, n)
+				}
+			}
+			for _, n := range lens {
+				for _, v := range variants {
+					params := append([]string{t, itoa(n)}, v...)
+					c := inst(p, harness, params...)
+					c.PanicIsViol = panicViol
+					c.MaxWallS = wall
+					r = append(r, c)
+				}
+			}
+		}
+		return r
+	}
+	tierN := func(tier string, q, t int) int {
+		if tier == "thorough" {
+			return t
+		}
+		return q
+	}
+	tierW := func(tier string, q, t float64) float64 {
+		if tier == "thorough" {
+			return t
+		}
+		return q
+	}
 	propDefs["C01"] = &PropDef{
 		ID:       "C01",
 		Patterns: []string{"./mp4"},
 		InitPkgs: []string{mod + "/mp4"},
 		Instances: func(tier string, L *Loaded) []*HarnessCfg {
+			r := boxInstances(L, "VerifC01Box", tierN(tier, -128, 96), tierW(tier, 3, 20), [][]string{{"false", "false"}, {"false", "true"}}, false)
+			r = append(r, boxInstances(L, "VerifC01Box", tierN(tier, -32, 40), tierW(tier, 2, 10), [][]string{{"true", "false"}}, false)...)
+			return r
+		},
+		Bounds: func(tier string) map[string]interface{} {
+			return map[string]interface{}{"box_body_bytes_max": tierN(tier, 40, 128), "large_header_body_bytes_max": tierN(tier, 24, 64), "per_instance_time_cap_s": tierW(tier, 4, 60)}
+		},
+		Covers: []string{"decoded"}, RequireCovers: true,
+	}
+	// calibration run (not a registered check): which (type, body length) pairs have a decode
+	// success path. Used only to select the quick tier's instances.
+	propDefs["CAL"] = &PropDef{
+		ID:       "CAL",
+		Patterns: []string{"./mp4"},
+		InitPkgs: []string{mod + "/mp4"},
+		Instances: func(tier string, L *Loaded) []*HarnessCfg {
+			r := boxInstances(L, "VerifC01Box", 128, 1.0, [][]string{{"false", "false"}}, false)
+			for _, c := range r {
+				c.StopAtCover = "decoded"
+			}
+			return r
+		},
+		Bounds: func(tier string) map[string]interface{} { return map[string]interface{}{} },
+	}
+	propDefs["C01D"] = &PropDef{
+		ID:       "C01D",
+		Patterns: []string{"./mp4"},
+		InitPkgs: []string{mod + "/mp4"},
+		Instances: func(tier string, L *Loaded) []*HarnessCfg {
 			var r []*HarnessCfg
-			p := mod + "/mp4"
-			for _, t := range registeredBoxTypes(L, "decodersSR") {
-				for n := 0; n <= 128; n++ {
-					c := inst(p, "VerifC01Box", t, itoa(n), "false", "false")
-					c.PanicIsViol = false
-					c.MaxWallS = 20
-					r = append(r, c)
+			calib := loadCalib()
+			for t, succ := range calib {
+				for i, n := range succ {
+					if i < 2 || (i == 9 && n < 100) {
+						c := inst(mod+"/mp4", "VerifC01Discover", t, itoa(n))
+						c.PanicIsViol = false
+						c.MaxWallS = 10
+						r = append(r, c)
+					}
 				}
 			}
 			return r
 		},
 		Bounds: func(tier string) map[string]interface{} { return map[string]interface{}{} },
+	}
+	propDefs["C02"] = &PropDef{
+		ID:       "C02",
+		Patterns: []string{"./mp4"},
+		InitPkgs: []string{mod + "/mp4"},
+		Instances: func(tier string, L *Loaded) []*HarnessCfg {
+			return boxInstances(L, "VerifC02Box", tierN(tier, -128, 96), tierW(tier, 3, 20), [][]string{{"false"}}, false)
+		},
+		Bounds: func(tier string) map[string]interface{} {
+			return map[string]interface{}{"box_body_bytes_max": tierN(tier, 40, 128), "per_instance_time_cap_s": tierW(tier, 4, 60)}
+		},
+		Covers: []string{"decoded", "encoded"}, RequireCovers: true,
+	}
+	propDefs["C03"] = &PropDef{
+		ID:       "C03",
+		Patterns: []string{"./mp4"},
+		InitPkgs: []string{mod + "/mp4"},
+		Instances: func(tier string, L *Loaded) []*HarnessCfg {
+			return boxInstances(L, "VerifC03Box", tierN(tier, -128, 96), tierW(tier, 3, 20), [][]string{{"false"}}, false)
+		},
+		Bounds: func(tier string) map[string]interface{} {
+			return map[string]interface{}{"box_body_bytes_max": tierN(tier, 40, 128), "per_instance_time_cap_s": tierW(tier, 4, 60)}
+		},
+		Covers: []string{"decoded"}, RequireCovers: true,
+	}
+	propDefs["C04"] = &PropDef{
+		ID:       "C04",
+		Patterns: []string{"./mp4"},
+		InitPkgs: []string{mod + "/mp4"},
+		Instances: func(tier string, L *Loaded) []*HarnessCfg {
+			r := boxInstances(L, "VerifC04Box", tierN(tier, -64, 48), tierW(tier, 3, 20), [][]string{{"false", "false"}, {"false", "true"}}, true)
+			for _, c := range r {
+				c.StepBudget, c.StepsPerByte, c.StepIsViol = 100000, 4000, true
+				c.AllocBudget, c.AllocPerByte, c.AllocIsViol = 1<<20, 64, true
+			}
+			return r
+		},
+		Bounds: func(tier string) map[string]interface{} {
+			return map[string]interface{}{"box_body_bytes_max": tierN(tier, 24, 64), "per_instance_time_cap_s": tierW(tier, 4, 60)}
+		},
+		Covers: []string{"decoded"}, RequireCovers: true,
 	}
 	propDefs["C18"] = &PropDef{
 		ID:       "C18",
@@ -116,6 +230,126 @@ func init() {
 		},
 		Bounds: func(tier string) map[string]interface{} { return map[string]interface{}{} },
 		Covers: []string{"scanner done", "convert done", "hevc done"}, RequireCovers: true,
+	}
+	propDefs["C17"] = &PropDef{
+		ID:       "C17",
+		Patterns: []string{"./sei"},
+		InitPkgs: []string{mod + "/sei"},
+		Instances: func(tier string, L *Loaded) []*HarnessCfg {
+			var r []*HarnessCfg
+			p := mod + "/sei"
+			lmax := tierN(tier, 3, 5)
+			for l1 := 0; l1 <= lmax; l1++ {
+				r = append(r, inst(p, "VerifC17List", itoa(l1), "-1"))
+				for l2 := 0; l2 <= tierN(tier, 1, 3); l2++ {
+					r = append(r, inst(p, "VerifC17List", itoa(l1), itoa(l2)))
+				}
+			}
+			for _, l := range []int{254, 255, 256, 510, 511} {
+				r = append(r, inst(p, "VerifC17Long", itoa(l)))
+			}
+			for n := 0; n <= tierN(tier, 2, 3); n++ {
+				r = append(r, inst(p, "VerifC17TimeCode", itoa(n)))
+			}
+			for _, ps := range []int{0, 3, 7} {
+				for _, tol := range []int{0, 5, 24} {
+					if tier != "thorough" && ps == 7 && tol != 0 {
+						continue
+					}
+					r = append(r, inst(p, "VerifC17PicTimingAvc", itoa(ps), itoa(tol), "false"))
+					if ps == 0 {
+						r = append(r, inst(p, "VerifC17PicTimingAvc", itoa(ps), itoa(tol), "true"))
+					}
+				}
+			}
+			r = append(r, inst(p, "VerifC17Fixed"))
+			for _, k := range []string{"registered", "cea608", "unregistered", "hevcpictiming", "general"} {
+				r = append(r, inst(p, "VerifC17PassThrough", k, "20"))
+			}
+			for _, c := range r {
+				c.MaxWallS = tierW(tier, 120, 1200)
+			}
+			return r
+		},
+		Bounds: func(tier string) map[string]interface{} { return map[string]interface{}{} },
+		Covers: []string{"list done", "long done", "timecode done", "pictiming done", "fixed done", "passthrough done"}, RequireCovers: true,
+	}
+	propDefs["C16"] = &PropDef{
+		ID:       "C16",
+		Patterns: []string{"./avc", "./hevc", "./sei", "./aac", "./av1"},
+		InitPkgs: []string{mod + "/avc", mod + "/hevc", mod + "/sei", mod + "/aac", mod + "/av1"},
+		Instances: func(tier string, L *Loaded) []*HarnessCfg {
+			var r []*HarnessCfg
+			add := func(pkg string, entries []string, nmax int) {
+				for _, en := range entries {
+					for n := 0; n <= nmax; n++ {
+						c := inst(mod+"/"+pkg, "VerifC16", en, itoa(n))
+						c.StepBudget, c.StepsPerByte, c.StepIsViol = 50000, 4000, true
+						c.AllocBudget, c.AllocPerByte, c.AllocIsViol = 1<<16, 64, true
+						c.MaxWallS = tierW(tier, 20, 600)
+						r = append(r, c)
+					}
+				}
+			}
+			walkN, parseN := tierN(tier, 10, 14), tierN(tier, 6, 10)
+			add("avc", []string{"GetNalusFromSample", "FindNaluTypes", "FindNaluTypesUpToFirstVideoNALU", "ContainsNaluType", "IsIDRSample",
+				"HasParameterSets", "GetParameterSets", "ExtractNalusFromByteStream", "ExtractNalusOfTypeFromByteStream",
+				"GetParameterSetsFromByteStream", "GetFirstAVCVideoNALUFromByteStream", "ConvertByteStreamToNaluSample",
+				"ConvertSampleToByteStream", "getStartCodePositions", "GetSliceTypeFromNALU", "DecodeAVCDecConfRec"}, walkN)
+			add("avc", []string{"ParseSPSNALUnit", "ParsePPSNALUnit", "ParseSliceHeader", "ParseSEINalu"}, parseN)
+			add("avc", []string{"GetSARfromIDC"}, 0)
+			add("hevc", []string{"FindNaluTypes", "FindNaluTypesUpToFirstVideoNalu", "ContainsNaluType", "IsRAPSample", "IsIDRSample",
+				"HasParameterSets", "GetParameterSets", "GetParameterSetsFromByteStream", "ExtractNalusOfTypeFromByteStream"}, walkN)
+			add("hevc", []string{"DecodeHEVCDecConfRec"}, tierN(tier, 28, 34))
+			add("hevc", []string{"ParseSPSNALUnit", "ParsePPSNALUnit", "ParseSliceHeader", "ParseSEINalu"}, parseN)
+			add("sei", []string{"ExtractSEIData", "avc1", "avc1hrd", "avc4", "avc5", "hevc4", "hevc5", "hevc136", "hevc137", "hevc144", "general", "hevc1", "cea608"}, tierN(tier, 8, 12))
+			add("sei", []string{"avc5", "hevc5", "hevc137"}, 26)
+			add("aac", []string{"DecodeADTSHeader", "DecodeAudioSpecificConfig"}, tierN(tier, 10, 12))
+			add("av1", []string{"DecodeAV1CodecConfRec"}, tierN(tier, 12, 20))
+			return r
+		},
+		Bounds: func(tier string) map[string]interface{} { return map[string]interface{}{} },
+		Covers: []string{"returned"}, RequireCovers: true,
+	}
+	propDefs["C09"] = &PropDef{
+		ID:       "C09",
+		Patterns: []string{"./mp4"},
+		InitPkgs: []string{mod + "/mp4"},
+		Instances: func(tier string, L *Loaded) []*HarnessCfg {
+			var r []*HarnessCfg
+			p := mod + "/mp4"
+			layouts := []string{"1x1", "2x1", "1x3", "2x2", "1x2,1x1", "2x1,1x2", "1x1,1x3,1x1"}
+			if tier == "thorough" {
+				layouts = append(layouts, "3x2", "2x2,1x1,1x2", "1x3,2x1,1x2", "2x3,1x2")
+			}
+			for _, lay := range layouts {
+				for ns := 1; ns <= tierN(tier, 2, 3); ns++ {
+					for _, dec := range []string{"false", "true"} {
+						for v := 0; v < 4; v++ {
+							co64, uni := "false", "false"
+							if v&1 == 1 {
+								co64 = "true"
+							}
+							if v&2 == 2 {
+								uni = "true"
+							}
+							if tier != "thorough" && dec == "true" && v != 0 && v != 3 {
+								continue
+							}
+							r = append(r, inst(p, "VerifC09Tables", lay, itoa(ns), dec, co64, uni))
+							r = append(r, inst(p, "VerifC09Intervals", lay, itoa(ns), dec, co64, uni))
+						}
+					}
+					r = append(r, inst(p, "VerifC09Time", lay, itoa(ns)))
+				}
+			}
+			for _, c := range r {
+				c.MaxWallS = tierW(tier, 60, 900)
+			}
+			return r
+		},
+		Bounds: func(tier string) map[string]interface{} { return map[string]interface{}{} },
+		Covers: []string{"tables done", "intervals done", "time done"}, RequireCovers: true,
 	}
 	propDefs["C13"] = &PropDef{
 		ID:       "C13",
@@ -175,5 +409,46 @@ func registeredBoxTypes(L *Loaded, table string) []string {
 		}
 	}
 	sort.Strings(r)
+	return r
+}
+
+var verifDir = "/verif"
+
+func loadCalib() map[string][]int {
+	data, err := os.ReadFile(filepath.Join(verifDir, "calib", "box_lengths.json"))
+	if err != nil {
+		return map[string][]int{}
+	}
+	var c struct {
+		Lengths map[string][]int `json:"lengths"`
+	}
+	if json.Unmarshal(data, &c) != nil {
+		return map[string][]int{}
+	}
+	return c.Lengths
+}
+
+// selectLengths picks the body lengths of the quick tier for one box type: the first success
+// lengths known from calibration, two later ones, and a few short lengths for the error paths.
+func selectLengths(succ []int, max int) []int {
+	set := map[int]bool{0: true, 8: true}
+	for i, n := range succ {
+		if n > max {
+			break
+		}
+		if i < 3 || i == 8 || i == 24 {
+			set[n] = true
+		}
+	}
+	if len(succ) == 0 {
+		for _, n := range []int{4, 12, 16, 20, 24, 32} {
+			set[n] = true
+		}
+	}
+	var r []int
+	for n := range set {
+		r = append(r, n)
+	}
+	sort.Ints(r)
 	return r
 }
